@@ -32,8 +32,8 @@ Extraction "model"
   IPV4_HEADER IPV6_HEADER UDP_HEADER
   c10_step_ok c10_bounded c10_kf2_class c10_closed_pending_class
   c02_write_wakes c02_drop_writer_wakes c02_shutdown_wakes c02_read_wakes c02_parked_ok c02_eof_wakes
-  c02_zero_window_waker c02_timer_ok c02_rto_armed c02_prompt c02_d2_class c02_d8_class c02_d9_class c02_d14_class
-  c17_synack_ok c17_fin_after_data_ok c17_fin_number_step_ok c17_fin_seq_ok c17_peer_fin_ok
+  c02_zero_window_waker c02_timer_ok c02_rto_armed c02_no_silent_stall c02_prompt c02_d2_class c02_d8_class c02_d9_class c02_d14_class
+  c17_synack_ok c17_fin_after_data_ok c17_fin_after_data_noerr c17_fin_number_step_ok c17_fin_seq_ok c17_peer_fin_ok
   c17_reset_ok c17_reset_trace_ok c03_ready_closed_ok c03_no_hang_ok c03_after_death_ok
   c05_window_ok c05_zero_window_ok c05_rto_single_ok c05_monitor_ok c05_zero_window_strict c05_d16_class
   c06_backoff_ok c06_cap_ok c06_emitted_live_ok c06_fast_retx_ok c06_stable_plen_ok c06_joint_ok
@@ -44,6 +44,6 @@ Extraction "model"
   c01_d17_class c01_d17_class_dir dchk0 pkt_size hacc_add hacc0
   c04_vsock_ack_ok c04_d19_class c06_no_resend_acked c05_rto_exit_ok c05_slow_start_ok
   c14_datagram_ok c14_segments_ok c08_deadline_ok
-  c09_shift_ok c09_first_bad c09_within_tol
-  dstate_new dstep drun dtrace cleanup_accept_queue push_acceptor c12_step_ok c13_step_ok
+  c09_shift_ok c09_first_bad c09_within_tol drop_vsock poll_finished c03_post_drop_ok c03_drop_wakes_ok
+  dstate_new dstep drun dtrace cleanup_accept_queue push_acceptor c12_step_ok c13_step_ok c12_syn_fresh_ok
   cubic_new cubic_trace c15_obs_ok c15_obs_core f64_view BETA_CUBIC C_CUBIC cbrt_cr.
